@@ -459,7 +459,10 @@ every tree, every working directory (inside or outside any argument, existing or
 list of arguments (relative, absolute, files, directories, missing entries): if the run fails
 with `e`, then `e` was raised by `lex` / `scan_file` on the decoded bytes of a regular file that
 an argument reached.  In particular `relative_to` (`relTo = none`, `ValueError`) never escapes:
-defect F15. -/
+defect F15.  (What is proved: nothing ELSE in the model raises.  That `relative_to`'s `ValueError`
+is caught is the transcription `| none => checkFile …` of `except ValueError: pass`
+(`Model/Select.lean`), tied by correspondence.  Errors of the operating system - an unreadable
+file, an argument that is neither file nor directory - are outside the model.) -/
 theorem check_error_only_from_analysis (args : List CheckArg) {e : Err}
     (h : (checkPaths O (.dir bn base) cwd args).result = .error e) :
     ∃ arg ∈ args, ∃ cp lang c, FileAt base (absOf cwd cp) c ∧ O.langOf (baseName cp.comps) = some lang ∧
@@ -470,7 +473,39 @@ theorem check_error_only_from_analysis (args : List CheckArg) {e : Err}
   obtain ⟨hf, hl⟩ := argItems_sound hxa
   exact ⟨arg, harg, x.1, x.2.1, x.2.2, hf, hl, he⟩
 
-/-- the exit status computed at the end of `check_command` is 0 or 1, for every file list -/
+/-- **the exit status computed at the end of `check_command`, for every file list**: 1 exactly
+when some listed function of some checked file is longer than 60 lines, 0 otherwise (the counters
+of `CheckResult.add` summed over the whole run; C02's `exit_code_iff` on what `check` really
+collected, from any working directory) -/
+theorem exit_status_iff (quiet : Bool) (fl : List (CPath × List Measurement)) :
+    ((Print.checkOutput quiet cwd fl).exitCode = 1 ↔ ∃ fm ∈ fl, ∃ m ∈ fm.2, 60 < m.len) ∧
+    ((Print.checkOutput quiet cwd fl).exitCode = 0 ↔ ∀ fm ∈ fl, ∀ m ∈ fm.2, m.len ≤ 60) := by
+  have hpos : (0 < (Print.counters fl).2) ↔ ∃ fm ∈ fl, ∃ m ∈ fm.2, 60 < m.len := by
+    rw [Print.counters_eq]
+    simp only [Int.natCast_pos, List.length_pos_iff, ne_eq, List.filter_eq_nil_iff, List.mem_flatMap,
+      decide_eq_true_eq, not_forall, Gen.Logic.check_counts_unmaintainable]
+    constructor
+    · rintro ⟨m, ⟨fm, hfm, hm⟩, hlen⟩
+      exact ⟨fm, hfm, m, hm, by omega⟩
+    · rintro ⟨fm, hfm, m, hm, hlen⟩
+      exact ⟨m, ⟨fm, hfm, hm⟩, by omega⟩
+  simp only [Print.checkOutput, Gen.Logic.check_exit_code]
+  constructor
+  · rw [← hpos]
+    split <;> simp_all
+  · have : (∀ fm ∈ fl, ∀ m ∈ fm.2, m.len ≤ 60) ↔ ¬ ∃ fm ∈ fl, ∃ m ∈ fm.2, 60 < m.len := by
+      constructor
+      · rintro h ⟨fm, hfm, m, hm, hlt⟩
+        have := h fm hfm m hm
+        omega
+      · intro h fm hfm m hm
+        by_contra hc
+        exact h ⟨fm, hfm, m, hm, by omega⟩
+    rw [this, ← hpos]
+    split <;> simp_all
+
+/-- hence the exit status is 0 or 1 (definitional: `check_exit_code` is an `if`; the content is
+`exit_status_iff` and that the end of `check_command` is REACHED, `check_total_any_cwd`) -/
 theorem exit_status_zero_or_one (quiet : Bool) (fl : List (CPath × List Measurement)) :
     (Print.checkOutput quiet cwd fl).exitCode = 0 ∨ (Print.checkOutput quiet cwd fl).exitCode = 1 := by
   simp only [Print.checkOutput, Gen.Logic.check_exit_code]
@@ -551,7 +586,10 @@ theorem exclusion_lines_read (fs : Node) (dir : List Str) :
 /-- **`check` from any working directory agrees with a scan of the checked directory whose
 exclusion sources are those visible from the working directory**: the built-in list, the
 `--exclude` options, `<cwd>/.codelimit.yml` and `<cwd>/.gitignore` (lines `pats`), matched against
-paths relative to `cwd`, for files below `cwd` only (`viewFrom`, `excluded_from_cwd_iff`). -/
+paths relative to `cwd`, for files below `cwd` only (`viewFrom`, `excluded_from_cwd_iff`).
+Hypothesis `hp`: the `--exclude` options, the `exclude` entries of `.codelimit.yml` and the lines of
+`.gitignore` are blank lines, `#` comments (both skipped, as pathspec does: `C11pat.parseAll_iff`)
+or lines of the six modelled classes; the witness files below contain all three kinds. -/
 theorem checkCmd_agrees_with_scan_under_cwd_sources (hwf : wfDir base = true) {a : List Str} {sub : List Node}
     (hd : DirAt base a sub) {arg : CheckArg} (harg : NamesDir cwd a arg) (n : Str)
     {pats : List Gi.Pat} (hp : userPatsAt R (.dir bn base) opts cwd = some pats) :
@@ -592,14 +630,15 @@ end Sources
 /-! ## Witnesses and non-vacuity: one file system, several working directories
 
 ```
-/w/root/.gitignore        gen.py            /w/tests/proj/a.py
+/w/root/.gitignore        (1)               /w/tests/proj/a.py
 /w/root/top.py                              /w/.hid/proj/h.py
 /w/root/build/b.py                          /w/.hid/proj/.dot/z.py
-/w/root/sub/.gitignore    keep.py           /w/.venv/proj/v.py
+/w/root/sub/.gitignore    (2)               /w/.venv/proj/v.py
 /w/root/sub/gen.py
 /w/root/sub/keep.py
 ```
-Every `.py` file holds one function of 41 lines named like the file's text.  The same tree was
+(1) = a comment line, a blank line, `gen.py`; (2) = `keep.py`, a blank line, an indented comment
+without final newline.  Every `.py` file holds one function of 41 lines named like the file's text.  The same tree was
 built on disk and the real `check_command` / `scan` were run from the same working directories:
 the real code gives the same file sets (see the report of task P29). -/
 
@@ -616,18 +655,22 @@ def wB : Oracles where
   decode c := c
   analyze _ t := .ok [⟨t, 1, 1, 41, 2, 41⟩]
 
-/-- lines of a text, blank lines dropped; no `.codelimit.yml` content is read in the examples -/
+/-- the lines of a text as `splitlines()` gives them - blank lines and comments included -; no
+`.codelimit.yml` content is read in the examples -/
 def wR : Readers where
-  lines s := (s.splitOn 10).filter (fun l => !l.isEmpty)
+  lines := splitLines
   yamlExclude _ := []
+
+example : splitLines (wstr "# c\n\ngen.py\n") = [wstr "# c", [], wstr "gen.py"] ∧ splitLines [] = [] ∧
+    splitLines (wstr "\n") = [[]] ∧ splitLines (wstr "a\n\nb") = [wstr "a", [], wstr "b"] := by decide +kernel
 
 /-- the entries of `/w/root` -/
 def wRootCh : List Node :=
-  [.file (wstr ".gitignore") (wstr "gen.py\n"),
+  [.file (wstr ".gitignore") (wstr "# generated files\n\ngen.py\n"),
    .file (wstr "top.py") (wstr "t"),
    .dir (wstr "build") [.file (wstr "b.py") (wstr "b")],
    .dir (wstr "sub")
-     [.file (wstr ".gitignore") (wstr "keep.py\n"),
+     [.file (wstr ".gitignore") (wstr "keep.py\n\n  # trailing comment"),
       .file (wstr "gen.py") (wstr "g"),
       .file (wstr "keep.py") (wstr "k")]]
 
@@ -647,8 +690,11 @@ def wSub : List Str := [wstr "w", wstr "root", wstr "sub"]
 
 theorem wBase_wf : wfDir wBase = true := by decide +kernel
 
-/-- the lines read: at the root `gen.py`, in `sub` `keep.py`, in `/w` none -/
-example : gitignoreAt wR wFs wRoot = some [wstr "gen.py"] ∧ gitignoreAt wR wFs wSub = some [wstr "keep.py"] ∧
+/-- the lines read: at the root a comment, a blank line and `gen.py`, in `sub` `keep.py`, a blank
+line and an indented comment, in `/w` none; the patterns are `gen.py` resp. `keep.py` (blank lines
+and comments are skipped, as pathspec does) -/
+example : gitignoreAt wR wFs wRoot = some [wstr "# generated files", [], wstr "gen.py"] ∧
+    gitignoreAt wR wFs wSub = some [wstr "keep.py", [], wstr "  # trailing comment"] ∧
     gitignoreAt wR wFs [wstr "w"] = none ∧
     userPatsAt wR wFs [] wRoot = some [.name (wstr "gen.py")] ∧
     userPatsAt wR wFs [] wSub = some [.name (wstr "keep.py")] := by
@@ -744,7 +790,7 @@ from `/w/root/sub` under its absolute path with its one long function -/
 example : ∃ fl, (checkPaths (withPats wB keepPat) wFs wSub [.absDir wRoot]).result = .ok fl ∧
     (⟨true, wRoot ++ [wstr "sub", wstr "gen.py"]⟩, [⟨wstr "g", 1, 1, 41, 2, 41⟩]) ∈ fl := by
   have hsel : Selected (viewFrom (withPats wB keepPat) wSub wRoot) wRootCh [wstr "sub", wstr "gen.py"] (wstr "g") 0 :=
-    ⟨.under (d := wstr "sub") (sub := [.file (wstr ".gitignore") (wstr "keep.py\n"),
+    ⟨.under (d := wstr "sub") (sub := [.file (wstr ".gitignore") (wstr "keep.py\n\n  # trailing comment"),
         .file (wstr "gen.py") (wstr "g"), .file (wstr "keep.py") (wstr "k")]) (by simp [wRootCh])
         (.here (by simp)), by decide +kernel, by decide +kernel, by decide +kernel⟩
   have hscan : (scanPath (viewFrom (withPats wB keepPat) wSub wRoot) (.dir [] wRootCh)).result =
@@ -798,7 +844,7 @@ example :
    fun cp hcp => ((checked_files_any_cwd _ [] wBase _ wBase_wf wRoot_dirAt wNames.1).1 cp hcp).2⟩
 
 theorem wGen_fileAt : FileAt wRootCh [wstr "sub", wstr "gen.py"] (wstr "g") :=
-  .under (d := wstr "sub") (sub := [.file (wstr ".gitignore") (wstr "keep.py\n"),
+  .under (d := wstr "sub") (sub := [.file (wstr ".gitignore") (wstr "keep.py\n\n  # trailing comment"),
     .file (wstr "gen.py") (wstr "g"), .file (wstr "keep.py") (wstr "k")]) (by simp [wRootCh]) (.here (by simp))
 
 /-- `named_file_any_cwd` in `/w/root` with the root's pattern `gen.py`: `sub/gen.py` named relative
